@@ -913,6 +913,8 @@ class EditableParentImpl(BaseParentImpl):
     def new_pandas(self, name, path, data, file_type, sheet):
 
         self._check_ref_name(name)
+        if self.model.refmgr.has_spec(data):
+            raise ValueError("data already has an IOSpec in the model")
         from modelx.io.pandasio import PandasData
         spec = self.system.iomanager.new_spec(
             PandasData,
